@@ -258,7 +258,28 @@ def r2(ctx):
         env = {u(n.targets[0]): n.value for n in walk_no_nested(evf.node) if isinstance(n, ast.Assign)}
         src = env.get(u(rets[0].left))
         ok = src is not None and u(src) == "self.expression()"
-    ctx.soft(ok, "preprocessor:ExpressionEvaluator.evaluate:nonzero", f"evaluate() must return `self.expression() != 0`: {[u(r) for r in rets]}", evf.loc())
+    # table specification: evaluate() is True exactly when the value of the expression is not 0
+    from ..spec import atoms as _atoms, tab as _tab, vt as _vt
+
+    n_ev = 0
+    for p in _tab(evf, unroll=1):
+        at = {k: v for k, v in _atoms(p).items() if not k.startswith("raises(")}
+        if p.result[0] != "return":
+            continue
+        n_ev += 1
+        zero = next((v for k, v in at.items() if k in ("0 Eq self.expression()", "self.expression() Eq 0")), None)
+        if zero is None:
+            zero = next((not v for k, v in at.items() if k == "self.expression()"), None)
+        res = p.result[1]
+        if zero is None and not isinstance(res, bool):
+            rt = _vt(res)
+            okv = rt in ("0 NotEq self.expression()", "self.expression() NotEq 0", "bool(self.expression())") or rt.replace(" ", "") in ("self.expression()!=0",)
+            ctx.check(okv, "preprocessor:ExpressionEvaluator.evaluate:nonzero", f"evaluate() must return whether the expression's value is non-zero: returns `{rt[:80]}`", evf.loc())
+            continue
+        extra = [k for k in at if "self.expression()" not in k]
+        ctx.check(isinstance(res, bool) and zero is not None and res is (not zero) and not extra, "preprocessor:ExpressionEvaluator.evaluate:nonzero", f"evaluate() must be True exactly when the expression's value is not 0: {p.describe()[:200]}", evf.loc())
+    if not n_ev:
+        raise AnalysisError("ExpressionEvaluator.evaluate: no returning path")
     ctx.floor(19 * 3 + 19 + 4 + 2)
 
 
@@ -556,9 +577,29 @@ def r7(ctx):
         b = t.body
         if len(b) == 2 and u(b[0]) == "self.match_type(Identifier)" and isinstance(b[1], ast.Return):
             ok = u(b[1].value) == "np.int64(0)"
-    ctx.soft(ok, "preprocessor:ExpressionEvaluator.term:identifier-is-0", "a residual identifier must evaluate to int64 0", term.loc())
-    rets = [u(n.value) for n in walk_no_nested(call.node) if isinstance(n, ast.Return)]
-    ctx.soft(rets == ["np.int64(0)"], "preprocessor:ExpressionEvaluator.call:residual-call-is-0", f"a residual function-like call must evaluate to int64 0: {rets}", call.loc())
+    from ..spec import atoms as _atoms, tab as _tab, vt as _vt
+
+    # table specification: the path of term() on which an identifier is matched (and nothing before it) yields int64 0
+    n_id = 0
+    for p in _tab(term, unroll=1):
+        at = _atoms(p)
+        idk = [k for k, v in at.items() if k.startswith("raises(") and "match_type(Identifier)" in k and not v]
+        if not idk or p.result[0] != "return":
+            continue
+        if any(("NumericalConstant" in k or "CharacterConstant" in k or "self.call()" in k) and k.startswith("raises(") and not v for k, v in at.items()):
+            continue
+        n_id += 1
+        ctx.check(_vt(p.result[1]) == "np.int64(0)", "preprocessor:ExpressionEvaluator.term:identifier-is-0", f"an identifier that is still there after macro replacement evaluates to (int64) 0: returns `{_vt(p.result[1])[:60]}`", term.loc())
+    if not n_id:
+        raise AnalysisError("term: no path on which an identifier is matched")
+    n_call = 0
+    for p in _tab(call, unroll=1):
+        if p.result[0] != "return":
+            continue
+        n_call += 1
+        ctx.check(_vt(p.result[1]) == "np.int64(0)", "preprocessor:ExpressionEvaluator.call:residual-call-is-0", f"a function-like call that is still there after macro replacement evaluates to (int64) 0: returns `{_vt(p.result[1])[:60]}`", call.loc())
+    if not n_call:
+        raise AnalysisError("ExpressionEvaluator.call: no returning path")
     # term() tries alternatives in an order in which `call` precedes plain identifier
     order = []
     for t in [n for n in term.node.body if isinstance(n, ast.Try)]:
